@@ -8,6 +8,7 @@
   sequences), ∀ text, ∀ chunking into non-empty tokens, ∀ end-of-stream protocol.
 -/
 import NemoVerif.Lemmas.Stream
+import NemoVerif.Models.StreamAsIs
 namespace NemoVerif.C18
 open NemoVerif.Stream
 
@@ -69,5 +70,93 @@ theorem release_is_safe (S : List Str) (hS : NonemptyStops S) (a b : Str) (h : h
       | some u => some u
       | none => (cutStop S b).map (a ++ ·) :=
   cutStop_append hS b (holds_false_iff.1 h)
+
+/-! ### The handler as it is in the unpatched tree (`Models/StreamAsIs.lean`) violates the property.
+
+Each theorem refutes a universally quantified statement by one concrete witness; the concrete
+evaluation is a finite fact checked by `decide` (kernel evaluation of the as-is model; `overflow = false`
+in every witness, i.e. the re-entrancy bound 64 is not what produces the difference).  The same
+witnesses are in harness/corpus/C18 and are replayed against the real code on every run. -/
+
+open NemoVerif.StreamAsIs
+
+/-- finding "prefix-and-suffix-in-one-chunk": `P:ab"` in one chunk delivers `ab"`, in three chunks `ab` -/
+theorem as_is_counterexample_prefix_and_suffix_in_one_chunk :
+    ¬ ∀ (cfg : Cfg) (cs₁ cs₂ : List Str) (e : EndProto), NonemptyStops cfg.stop → cs₁.flatten = cs₂.flatten →
+        (∀ c ∈ cs₁, c ≠ []) → (∀ c ∈ cs₂, c ≠ []) →
+        deliveredA (runA cfg 64 cs₁ e) = deliveredA (runA cfg 64 cs₂ e) := by
+  intro h
+  have := h ⟨"P:".toList, "\"".toList, []⟩ ["P:ab\"".toList] ["P:".toList, "ab".toList, "\"".toList] .empty
+    (by intro s hs; simp at hs) (by decide) (by decide) (by decide)
+  revert this
+  decide
+
+/-- the two results of the witness above, spelled out -/
+theorem as_is_witness_prefix_and_suffix_in_one_chunk :
+    let cfg : Cfg := ⟨"P:".toList, "\"".toList, []⟩
+    deliveredA (runA cfg 64 ["P:ab\"".toList] .empty) = "ab\"".toList ∧
+    deliveredA (runA cfg 64 ["P:".toList, "ab".toList, "\"".toList] .empty) = "ab".toList ∧
+    (runA cfg 64 ["P:ab\"".toList] .empty).overflow = false := by decide
+
+/-- finding "stop-sequence-in-text": with stop `S`, text `abSx` in one chunk delivers `ab` but ends with
+    `completion = "abab"`; chunks `a`,`bSx` end with `"abb"` -/
+theorem as_is_counterexample_completion_duplicated :
+    ¬ ∀ (cfg : Cfg) (cs : List Str) (e : EndProto), NonemptyStops cfg.stop → (∀ c ∈ cs, c ≠ []) →
+        (runA cfg 64 cs e).completion = deliveredA (runA cfg 64 cs e) := by
+  intro h
+  have := h ⟨[], [], ["S".toList]⟩ ["abSx".toList] .empty (by intro s hs; simp at hs; subst hs; simp) (by decide)
+  revert this
+  decide
+
+theorem as_is_witness_completion_duplicated :
+    let cfg : Cfg := ⟨[], [], ["S".toList]⟩
+    (runA cfg 64 ["abSx".toList] .empty).completion = "abab".toList ∧
+    (runA cfg 64 ["a".toList, "bSx".toList] .empty).completion = "abb".toList ∧
+    deliveredA (runA cfg 64 ["abSx".toList] .empty) = "ab".toList ∧
+    deliveredA (runA cfg 64 ["a".toList, "bSx".toList] .empty) = "ab".toList ∧
+    (runA cfg 64 ["abSx".toList] .empty).overflow = false := by decide
+
+/-- finding "stop-split-after-prefix-chunk": prefix `P:`, stop `ST`, text `P:abSTx`: chunks `P:abS`,`Tx`
+    deliver `abS`, one chunk delivers `ab` -/
+theorem as_is_counterexample_stop_split_after_prefix_chunk :
+    ¬ ∀ (cfg : Cfg) (cs₁ cs₂ : List Str) (e : EndProto), NonemptyStops cfg.stop → cs₁.flatten = cs₂.flatten →
+        (∀ c ∈ cs₁, c ≠ []) → (∀ c ∈ cs₂, c ≠ []) →
+        deliveredA (runA cfg 64 cs₁ e) = deliveredA (runA cfg 64 cs₂ e) := by
+  intro h
+  have := h ⟨"P:".toList, [], ["ST".toList]⟩ ["P:abS".toList, "Tx".toList] ["P:abSTx".toList] .llmEnd
+    (by intro s hs; simp at hs; subst hs; simp) (by decide) (by decide) (by decide)
+  revert this
+  decide
+
+theorem as_is_witness_stop_split_after_prefix_chunk :
+    let cfg : Cfg := ⟨"P:".toList, [], ["ST".toList]⟩
+    deliveredA (runA cfg 64 ["P:abS".toList, "Tx".toList] .llmEnd) = "abS".toList ∧
+    deliveredA (runA cfg 64 ["P:abSTx".toList] .llmEnd) = "ab".toList := by decide
+
+/-- finding "several-stops-not-earliest": stops `x`,`b` (in this order), text `abx`: one chunk is cut at
+    `x`, the re-entrant call then cuts the doubled text `abab` at `b` and nothing is delivered
+    (`completion = "a"`); chunks `a`,`bx` deliver `a` -/
+theorem as_is_counterexample_several_stops_not_earliest :
+    ¬ ∀ (cfg : Cfg) (cs₁ cs₂ : List Str) (e : EndProto), NonemptyStops cfg.stop → cs₁.flatten = cs₂.flatten →
+        (∀ c ∈ cs₁, c ≠ []) → (∀ c ∈ cs₂, c ≠ []) →
+        deliveredA (runA cfg 64 cs₁ e) = deliveredA (runA cfg 64 cs₂ e) := by
+  intro h
+  have := h ⟨[], [], ["x".toList, "b".toList]⟩ ["abx".toList] ["a".toList, "bx".toList] .empty
+    (by intro s hs; simp at hs; rcases hs with rfl | rfl <;> simp) (by decide) (by decide) (by decide)
+  revert this
+  decide
+
+theorem as_is_witness_several_stops_not_earliest :
+    let cfg : Cfg := ⟨[], [], ["x".toList, "b".toList]⟩
+    deliveredA (runA cfg 64 ["abx".toList] .empty) = [] ∧
+    (runA cfg 64 ["abx".toList] .empty).completion = "a".toList ∧
+    deliveredA (runA cfg 64 ["a".toList, "bx".toList] .empty) = "a".toList := by decide
+
+/-- the repaired model on the same four witnesses (instances of `chunk_invariant`, evaluated) -/
+example :
+    delivered (run ⟨"P:".toList, "\"".toList, []⟩ ["P:ab\"".toList] .empty) = "ab".toList ∧
+    (run ⟨[], [], ["S".toList]⟩ ["abSx".toList] .empty).completion = "ab".toList ∧
+    delivered (run ⟨"P:".toList, [], ["ST".toList]⟩ ["P:abS".toList, "Tx".toList] .llmEnd) = "ab".toList ∧
+    delivered (run ⟨[], [], ["x".toList, "b".toList]⟩ ["abx".toList] .empty) = "a".toList := by decide
 
 end NemoVerif.C18
